@@ -1017,6 +1017,14 @@ def _judge_metadata(pre, post, m, raised, mos_warns, D, v):
                      {'carried': [list(k) for k in keys],
                       'pre': [list(meta_key(c)) for c in pre.meta],
                       'post': [list(meta_key(c)) for c in post.meta]}))
+    elif post.story_ids == pre.story_ids:
+        # ... and the uncarried entries - stories and metadata together - keep their relative order
+        seq = lambda a: [('story', sid(c)) if c.tag == 'story' else meta_key(c)
+                         for c in a.entries if c.tag == 'story' or meta_key(c) not in keys]
+        if seq(pre) != seq(post):
+            D.append(Dev('C03', 'metadata-replace-reordered-uncarried-entries',
+                         {'carried': [list(k) for k in keys], 'pre': [list(x) for x in seq(pre)],
+                          'post': [list(x) for x in seq(post)]}))
     # every carried element is present with the sent content (exactly once)
     for c, k in zip(carried, keys):
         got = [canon(p) for p in post.meta if meta_key(p) == k]
